@@ -134,6 +134,13 @@ CHECKS["C07"] = dict(
     ref="4/C07",
 )
 
+CHECKS["C06"] = dict(
+    technique="independent resource accounting at hooks on the real engine (bytes accepted by every LimitedStringIO, loop-body executions per chain of loop sites from a Node.render frame stack, sys.getsizeof sums over the live context chain, copy/extend depth) compared online with the configured limit, around boundary limit values measured from an unrestricted render; cyclic template graphs run unwrapped under a step budget and the default recursion limit",
+    text="Exploration: ~4e4 (quick) / ~7.5e5 (thorough) real renders of ~1.3e3 / ~2.7e4 generated programs (loop nests across render-for, include-for, tablerow, macros, blocks with block.super, captures, blank blocks, CR/CRLF/multi-byte text); each program's unrestricted consumption is measured and every limit is then set to consumption-1, consumption, consumption+1, capture peak +-1, 0 and random values: success must reproduce the unrestricted output within the limit, a limit below consumption must raise the matching error, and no hook may observe consumption above the limit before the error. 520 (quick) cyclic graphs of <= 4 templates over 17 edge kinds must end in ContextDepthError/TemplateInheritanceError; acyclic chains are scanned over all depth limits.",
+    note="Trusted: the monitor's own accounting (vf/c06_mon.py); 'must succeed' for loops is only demanded when the limit >= product of lengths and no break is present (the engine's up-front count is conservative by design); capture buffers are checked at the engine's one-level carry; RecursionError is judged at context_depth_limit <= 31.",
+    ref="4/C06",
+)
+
 NOT_YET = {}
 
 def main():
